@@ -334,25 +334,37 @@ Definition approximate_catmull (points : list Pos) : outcome (list Pos) :=
 
 (* the osu!-mode simplification loop of calculate_subpath.
    i = index of the head of l in sub_path, n = sub_path.len(),
-   prev = sub_path[i-1] *)
-Fixpoint simplify_loop (l : list Pos) (i n : Z) (prev : Pos) (last_start : option Pos)
-    (removed : F64) (acc : list Pos) (opt : F64) : list Pos * F64 :=
-  match l with
-  | [] => (acc, opt)
-  | curr :: t =>
-      match last_start with
-      | None => simplify_loop t (i + 1) n curr (Some curr) removed (acc ++ [curr]) opt
-      | Some ls =>
-          let dist_from_start := f64_of_f32 (pdist ls curr) in
-          let removed' := D.add removed (f64_of_f32 (pdist prev curr)) in
-          if D.gt dist_from_start catmull_simplify_dist
-             || ((i + 1) mod catmull_segment_len =? 0)
-             || (i =? n - 1)
-          then simplify_loop t (i + 1) n curr None D.zero (acc ++ [curr])
-                             (D.add opt (D.sub removed' dist_from_start))
-          else simplify_loop t (i + 1) n curr (Some ls) removed' acc opt
-      end
-  end.
+   prev = sub_path[i-1].
+   Written once over a point type, a scalar type, the distance between two
+   points, addition, subtraction, zero and the "farther than 6 px" test; the
+   model is the IEEE instance below, Proofs/SimplifyExact reads it over R. *)
+Section Simplify.
+  Context {P T : Type}.
+  Variables (dist_g : P -> P -> T) (add_g sub_g : T -> T -> T) (zero_g : T) (far_g : T -> bool).
+  Fixpoint simplify_loop_g (l : list P) (i n : Z) (prev : P) (last_start : option P)
+      (removed : T) (acc : list P) (opt : T) : list P * T :=
+    match l with
+    | [] => (acc, opt)
+    | curr :: t =>
+        match last_start with
+        | None => simplify_loop_g t (i + 1) n curr (Some curr) removed (acc ++ [curr]) opt
+        | Some ls =>
+            let dist_from_start := dist_g ls curr in
+            let removed' := add_g removed (dist_g prev curr) in
+            if far_g dist_from_start
+               || ((i + 1) mod catmull_segment_len =? 0)
+               || (i =? n - 1)
+            then simplify_loop_g t (i + 1) n curr None zero_g (acc ++ [curr])
+                                 (add_g opt (sub_g removed' dist_from_start))
+            else simplify_loop_g t (i + 1) n curr (Some ls) removed' acc opt
+        end
+    end.
+End Simplify.
+
+(* f64::from(a.distance(b)); dist_from_start > 6.0 *)
+Definition simplify_loop : list Pos -> Z -> Z -> Pos -> option Pos -> F64 -> list Pos -> F64 -> list Pos * F64 :=
+  simplify_loop_g (fun a b => f64_of_f32 (pdist a b)) D.add D.sub D.zero
+                  (fun x => D.gt x catmull_simplify_dist).
 
 Definition catmull_simplify (sub_path : list Pos) (opt : F64) : list Pos * F64 :=
   simplify_loop sub_path 0 (Z.of_nat (length sub_path)) pos0 None D.zero [] opt.
